@@ -3,6 +3,7 @@ package main
 // Symbolic execution of one SSA function body as a DAG (loops cut at headers).
 
 import (
+	"os"
 	"fmt"
 	"go/token"
 	"go/types"
@@ -328,7 +329,13 @@ func (x *Exec) compsOfFn(callee *ssa.Function, seen map[*ssa.Function]bool, out 
 	}
 	seen[callee] = true
 	key := fnKey(callee)
-	if con := x.E.Contracts[key]; con != nil && con.HasBody && !con.Inline {
+	con := x.E.Contracts[key]
+	if x.TopCon != nil && x.TopCon.Mode == "spec" {
+		if c2 := x.E.Contracts[key+"@spec"]; c2 != nil && c2.HasBody && !c2.Inline {
+			con = c2
+		}
+	}
+	if con != nil && con.HasBody && !con.Inline {
 		for _, m := range con.Modifies {
 			if m.Comp == "fresh" {
 				if callee.Blocks != nil {
@@ -553,14 +560,22 @@ func (fr *Frame) exitVars(st State) (map[string]SpecVar, map[string]Term) {
 			}
 		}
 	}
-	depth := func(b *ssa.BasicBlock) int {
-		d := 0
-		for ; b != nil; b = b.Idom() {
-			d++
-		}
-		return d
-	}
+	cands := map[string][]ssa.Value{}
 	for name, vs := range fr.names {
+		cands[name] = append(cands[name], vs...)
+	}
+	for _, b := range fr.fn.Blocks {
+		for _, ins := range b.Instrs {
+			phi, ok := ins.(*ssa.Phi)
+			if !ok {
+				break
+			}
+			if phi.Comment != "" {
+				cands[phi.Comment] = append(cands[phi.Comment], phi)
+			}
+		}
+	}
+	for name, vs := range cands {
 		var pick ssa.Value
 		pd, pk := -1, -1
 		for _, v := range vs {
@@ -568,20 +583,23 @@ func (fr *Frame) exitVars(st State) (map[string]SpecVar, map[string]Term) {
 			if !ok || ins.Block() == nil {
 				continue
 			}
-			dom := false
-			for _, r := range rets {
-				if ins.Block().Dominates(r) {
-					dom = true
+			// definitions inside a loop body only describe one iteration; the header phi is the loop's exit value
+			inLoop := false
+			for _, li := range fr.loops {
+				if li.blocks[ins.Block()] {
+					if phi, isPhi := v.(*ssa.Phi); !(isPhi && phi.Block() == li.header) {
+						inLoop = true
+					}
 				}
 			}
-			if !dom {
+			if inLoop {
 				continue
 			}
 			if al, isAl := v.(*ssa.Alloc); isAl && al.Comment == name {
 				pick, pd, pk = v, 1<<30, 0
 				continue
 			}
-			d, k := depth(ins.Block()), 0
+			d, k := ins.Block().Index, 0
 			for i, i2 := range ins.Block().Instrs {
 				if i2 == ins {
 					k = i
@@ -590,6 +608,9 @@ func (fr *Frame) exitVars(st State) (map[string]SpecVar, map[string]Term) {
 			if d > pd || (d == pd && k > pk) {
 				pick, pd, pk = v, d, k
 			}
+		}
+		if os.Getenv("GVC_DEBUG") != "" {
+			fmt.Println("exitVars", name, len(vs), pick)
 		}
 		if pick == nil {
 			continue
